@@ -1,9 +1,12 @@
 import Driver.Util
 import Sqfs.Model.MetaReader
 import Sqfs.Model.DataReaderCache
+import Sqfs.Model.C10Dec
 /-!
-`sqfsmodel c10 [old]` — line-protocol driver for the reader-cache models (stateful: one in-memory file, a set of
-scripted bad ranges, numbered reader objects).  `old` selects the model of the unrepaired code (`fix = false`).
+`sqfsmodel c10 [old|cur]` — line-protocol driver for the reader models (stateful: one in-memory file, a set of
+scripted bad ranges, numbered reader objects).  No argument: the code with every repair of `fixes/C10-*.patch`
+(`fix = kw = sfix = true`); `cur`: the code as it is in /repo (`sfix = false`: D33); `old`: the code before the
+repairs of D2/D3/D21 (all three `false`).
 
     file <hex>                       -> ok <len>      (new image: forgets bad ranges and all reader objects)
     bad <off> <len> | badclr         -> ok
@@ -17,16 +20,56 @@ scripted bad ranges, numbered reader objects).  `old` selects the model of the u
          (the location arguments are for the harness, which loads the table from the image; the model is handed the entries)
     dr <k> read <filesz> <blkstart> <fragidx> <fragoff> <w1,..|-> <offset> <size> -> <answer on reader k> || <fresh>
          answer = ret=<n> data=<hex> | ret=<status>
+    dr <k> block <inode> <index> | dr <k> frag <inode> | dr <k> cat <inode> <chunk>     -> <answer> || <fresh>
+         answer = st=<status> | st=0 data=<hex>     (<inode> = the five tokens of `dr read`)
+    dr <k> reload <meta_start> <loc> <count> <bytes_used>                              -> st=<load status>
+    st <j> open <k> <inode> -> ok | st <j> get -> eof | st=<status> | data=<hex, ?? = never written> | st <j> adv <n> -> ok
+    dd <k> new <inode_start> <dir_start> <id_start> <frag_start> <export_start> <root_ref> <block_size> -> ok
+    dd <k> inode <ref> | ls <ref> | path <hex>      -> <answer> || <fresh>
+    dd <k> open <j> <ref> -> st=<status>            dd <k> next <j> -> <answer> || <fresh>    (cursor slot j)
+    xr <k> new <no_xattrs> <xattr_table_start> <id_table_start> <bytes_used> -> st=<load status>
+    xr <k> desc <idx> | all <idx>                   -> <answer> || <fresh>
+    xr <k> seek <xattr> | key | val | valt <type>   -> <answer>      (continue at the cursor: no fresh reader)
+    idt <k> new <id_count> <id_start> <dir_start> <frag_start> <export_start> <bytes_used> -> st=<status>
+    idt <k> get <idx>                               -> <answer> || <fresh>
 -/
 namespace Driver.C10
-open Sqfs.MetaReader
+open Sqfs.MetaReader Sqfs.C10P
+
+/-- super block fields a data reader's fragment table is loaded with -/
+structure FragSuper where
+  ms : Nat
+  loc : Nat
+  cnt : Nat
+  used : Nat
+
+structure DirObj where
+  d : DirRd
+  w0 : Nat × Nat
+  w1 : Nat × Nat
+  m0 : MR
+  m1 : MR
+
+structure XrObj where
+  args : Bool × Nat × Nat × Nat
+  x : XR
+  m0 : MR
+  m1 : MR
+  lastKey : Option Nat := none
 
 structure St where
   fix : Bool
+  kw : Bool
+  sfix : Bool
   bytes : Array UInt8 := #[]
   bad : List (Nat × Nat) := []
   mrs : Array (Option MR) := Array.replicate 16 none
-  drs : Array (Option Sqfs.DataReader.DR) := Array.replicate 8 none
+  drs : Array (Option (Sqfs.DataReader.DR × FragSuper)) := Array.replicate 8 none
+  sts : Array (Option (Nat × Sqfs.DataReader.Stream)) := Array.replicate 16 none
+  dds : Array (Option DirObj) := Array.replicate 8 none
+  curs : Array (Option Rd) := Array.replicate 16 none
+  xrs : Array (Option XrObj) := Array.replicate 8 none
+  idts : Array (Option ((Nat × Nat × Nat × Nat × Nat × Nat) × Except Status (List Nat))) := Array.replicate 8 none
 
 def St.file (s : St) : File :=
   { size := s.bytes.size
@@ -68,26 +111,312 @@ def pairList? (s : String) : Option (List (Nat × Nat)) :=
 def showRead (r : Status × Bytes) : String :=
   if r.1 ≠ 0 then "ret=" ++ showSt r.1 else "ret=" ++ toString r.2.length ++ " data=" ++ toHexTok r.2
 
+def NONE64 : Nat := 18446744073709551615
+
+def loadFrags (s : St) (fs : FragSuper) : Except Status (List (Nat × Nat)) :=
+  fragTableRead s.fix s.file toyUnc (fs.cnt = 0) fs.cnt (if fs.cnt = 0 then NONE64 else fs.loc) fs.ms fs.used NONE64 fs.used
+
+def freshDr (s : St) (bs : Nat) (fs : FragSuper) : Status × Sqfs.DataReader.DR :=
+  let t := loadFrags s fs
+  let d := Sqfs.DataReader.reload (Sqfs.DataReader.fresh bs []) t
+  (match t with | .ok _ => 0 | .error e => e, d)
+
+def inode? (ws : List String) : Option Sqfs.DataReader.Inode :=
+  match ws with
+  | [fsz, bst, fi, fo, bl] =>
+    match nat? fsz, nat? bst, nat? fi, nat? fo, natList? bl with
+    | some fsz, some bst, some fi, some fo, some bl =>
+      some { fileSize := fsz, blocksStart := bst, fragIdx := fi, fragOff := fo, blocks := bl }
+    | _, _, _, _, _ => none
+  | _ => none
+
+def showData (r : Except Status Bytes) : String :=
+  match r with
+  | .error e => "st=" ++ showSt e
+  | .ok b => "st=0 data=" ++ toHexTok b
+
+def showMem (m : List (Option UInt8)) : String :=
+  if m.isEmpty then "-" else String.join (m.map fun b => match b with | some v => toHex [v] | none => "??")
+
+/-- a whole file through a new stream: `get_buffered_data` / `advance_buffer(chunk)` until the end or an error -/
+def catStream (sfix : Bool) (f : File) (d : Sqfs.DataReader.DR) (ino : Sqfs.DataReader.Inode) (chunk : Nat) :
+    String × Sqfs.DataReader.DR :=
+  let rec go (fuel : Nat) (d : Sqfs.DataReader.DR) (st : Sqfs.DataReader.Stream) (acc : List (Option UInt8)) :
+      String × Sqfs.DataReader.DR :=
+    match fuel with
+    | 0 => ("st=fuel", d)
+    | fuel + 1 =>
+      let r := Sqfs.DataReader.streamGet sfix f toyUnc d st
+      match r.1 with
+      | .eof => ("st=0 data=" ++ showMem acc, r.2.2)
+      | .err e => ("st=" ++ showSt e ++ " data=" ++ showMem acc, r.2.2)
+      | .data b =>
+        let n := if chunk = 0 then b.length else (if chunk < b.length then chunk else b.length)
+        go fuel r.2.2 (Sqfs.DataReader.streamAdvance r.2.1 n) (acc ++ b.take n)
+  go (ino.fileSize + ino.blocks.length + 8) d (Sqfs.DataReader.streamOpen d.blockSize ino) []
+
 def stepDr (s : St) (k : Nat) (rest : List String) : St × String :=
   match rest with
-  | ["new", bs, _, _, _, _, ents] => match nat? bs, pairList? ents with
-      | some bs, some tbl => ({ s with drs := s.drs.set! k (some (Sqfs.DataReader.fresh bs tbl)) }, "st=0")
+  | ["new", bs, ms, loc, cnt, used, _] => match nat? bs, nat? ms, nat? loc, nat? cnt, nat? used with
+      | some bs, some ms, some loc, some cnt, some used =>
+        let fs : FragSuper := ⟨ms, loc, cnt, used⟩
+        let r := freshDr s bs fs
+        ({ s with drs := s.drs.set! k (some (r.2, fs)) }, "st=" ++ showSt r.1)
+      | _, _, _, _, _ => (s, "bad-op")
+  | _ =>
+    match s.drs.getD k none with
+    | none => (s, "bad-op")
+    | some (d, fs) =>
+      let fr := (freshDr s d.blockSize fs).2
+      match rest with
+      | ["reload", ms, loc, cnt, used] => match nat? ms, nat? loc, nat? cnt, nat? used with
+          | some ms, some loc, some cnt, some used =>
+            let fs' : FragSuper := ⟨ms, loc, cnt, used⟩
+            let t := loadFrags s fs'
+            ({ s with drs := s.drs.set! k (some (Sqfs.DataReader.reload d t, fs')) },
+              "st=" ++ showSt (match t with | .ok _ => 0 | .error e => e))
+          | _, _, _, _ => (s, "bad-op")
+      | ["read", fsz, bst, fi, fo, ws, off, sz] =>
+        match inode? [fsz, bst, fi, fo, ws], nat? off, nat? sz with
+        | some ino, some off, some sz =>
+          let r := Sqfs.DataReader.read s.kw s.file toyUnc d ino off sz
+          let r2 := Sqfs.DataReader.read s.kw s.file toyUnc fr ino off sz
+          ({ s with drs := s.drs.set! k (some (r.2, fs)) }, showRead r.1 ++ " || " ++ showRead r2.1)
+        | _, _, _ => (s, "bad-op")
+      | ["block", fsz, bst, fi, fo, ws, idx] =>
+        match inode? [fsz, bst, fi, fo, ws], nat? idx with
+        | some ino, some idx =>
+          let r := Sqfs.DataReader.getBlockApi s.file toyUnc d.blockSize ino idx
+          (s, showData r ++ " || " ++ showData r)
+        | _, _ => (s, "bad-op")
+      | ["frag", fsz, bst, fi, fo, ws] =>
+        match inode? [fsz, bst, fi, fo, ws] with
+        | some ino =>
+          let r := Sqfs.DataReader.getFragment s.file toyUnc d ino
+          let r2 := Sqfs.DataReader.getFragment s.file toyUnc fr ino
+          ({ s with drs := s.drs.set! k (some (r.2, fs)) }, showData r.1 ++ " || " ++ showData r2.1)
+        | none => (s, "bad-op")
+      | ["cat", fsz, bst, fi, fo, ws, chunk] =>
+        match inode? [fsz, bst, fi, fo, ws], nat? chunk with
+        | some ino, some chunk =>
+          let r := catStream s.sfix s.file d ino chunk
+          let r2 := catStream s.sfix s.file fr ino chunk
+          ({ s with drs := s.drs.set! k (some (r.2, fs)) }, r.1 ++ " || " ++ r2.1)
+        | _, _ => (s, "bad-op")
+      | _ => (s, "bad-op")
+
+def stepStream (s : St) (j : Nat) (rest : List String) : St × String :=
+  match rest with
+  | ["open", ks, fsz, bst, fi, fo, ws] =>
+    match nat? ks, inode? [fsz, bst, fi, fo, ws] with
+    | some k, some ino =>
+      match s.drs.getD k none with
+      | some (d, _) => ({ s with sts := s.sts.set! j (some (k, Sqfs.DataReader.streamOpen d.blockSize ino)) }, "ok")
+      | none => (s, "bad-op")
+    | _, _ => (s, "bad-op")
+  | _ =>
+    match s.sts.getD j none with
+    | none => (s, "bad-op")
+    | some (k, st) =>
+      match rest, s.drs.getD k none with
+      | ["get"], some (d, fs) =>
+        let r := Sqfs.DataReader.streamGet s.sfix s.file toyUnc d st
+        let out := match r.1 with
+          | .eof => "eof"
+          | .err e => "st=" ++ showSt e
+          | .data b => "data=" ++ showMem b
+        ({ s with sts := s.sts.set! j (some (k, r.2.1)), drs := s.drs.set! k (some (r.2.2, fs)) }, out)
+      | ["adv", n], some _ => match nat? n with
+          | some n => ({ s with sts := s.sts.set! j (some (k, Sqfs.DataReader.streamAdvance st n)) }, "ok")
+          | none => (s, "bad-op")
       | _, _ => (s, "bad-op")
-  | ["read", fsz, bst, fi, fo, ws, off, sz] =>
-    match s.drs.getD k none, nat? fsz, nat? bst, nat? fi, nat? fo, natList? ws, nat? off, nat? sz with
-    | some d, some fsz, some bst, some fi, some fo, some ws, some off, some sz =>
-      let ino : Sqfs.DataReader.Inode := { fileSize := fsz, blocksStart := bst, fragIdx := fi, fragOff := fo, blocks := ws }
-      let kw := s.fix
-      let r := Sqfs.DataReader.read kw s.file toyUnc d ino off sz
-      let r2 := Sqfs.DataReader.read kw s.file toyUnc (Sqfs.DataReader.fresh d.blockSize d.tbl) ino off sz
-      ({ s with drs := s.drs.set! k (some r.2) }, showRead r.1 ++ " || " ++ showRead r2.1)
-    | _, _, _, _, _, _, _, _ => (s, "bad-op")
+
+/-! ### dir reader, xattr reader, id table -/
+
+def runP {α : Type} (s : St) (p : Prog α) (m0 m1 : MR) : Except Status α × MR × MR :=
+  let r := exec s.fix s.file toyUnc p (fun j => if j = 0 then m0 else m1)
+  (r.1, r.2 0, r.2 1)
+
+def natsStr (l : List Nat) : String := if l.isEmpty then "-" else ",".intercalate (l.map toString)
+
+def showInode (r : Except Status InodeR) : String :=
+  match r with
+  | .error e => "st=" ++ showSt e
+  | .ok i => "st=0 t=" ++ toString i.typ ++ " m=" ++ toString i.mode ++ " u=" ++ toString i.uid ++ " g=" ++ toString i.gid ++
+      " mt=" ++ toString i.mtime ++ " i=" ++ toString i.inum ++ " f=" ++ natsStr i.fields ++ " x=" ++ toHexTok i.extra
+
+def showEnt (e : Entry) : String :=
+  toString e.offset ++ ":" ++ toString e.inodeDiff ++ ":" ++ toString e.typ ++ ":" ++ toString e.size ++ ":" ++ toHexTok e.name
+
+def showList (r : Except Status (List (Entry × Nat))) : String :=
+  match r with
+  | .error e => "st=" ++ showSt e
+  | .ok l => "st=0 n=" ++ toString l.length ++ " e=" ++
+      (if l.isEmpty then "-" else ";".intercalate (l.map fun p => showEnt p.1 ++ ":" ++ toString p.2))
+
+def showRef (r : Except Status Nat) : String :=
+  match r with
+  | .error e => "st=" ++ showSt e
+  | .ok v => "st=0 ref=" ++ toString v
+
+def showNext (r : Except Status (RdRes × Rd)) : String :=
+  match r with
+  | .error e => "st=" ++ showSt e
+  | .ok (.eof, _) => "eof"
+  | .ok (.ent e iref, _) => "ent=" ++ showEnt e ++ " ref=" ++ toString iref
+
+def stepDd (s : St) (k : Nat) (rest : List String) : St × String :=
+  match rest with
+  | ["new", a, b, c, d, e, root, bs] =>
+    match nat? a, nat? b, nat? c, nat? d, nat? e, nat? root, nat? bs with
+    | some a, some b, some c, some d, some e, some root, some bs =>
+      let w := dirRdWindows a b c d e
+      let o : DirObj := { d := { inodeStart := a, dirStart := b, rootRef := root, blockSize := bs }, w0 := w.1, w1 := w.2,
+                          m0 := fresh w.1.1 w.1.2, m1 := fresh w.2.1 w.2.2 }
+      ({ s with dds := s.dds.set! k (some o) }, "ok")
+    | _, _, _, _, _, _, _ => (s, "bad-op")
+  | _ =>
+    match s.dds.getD k none with
+    | none => (s, "bad-op")
+    | some o =>
+      let f0 := fresh o.w0.1 o.w0.2
+      let f1 := fresh o.w1.1 o.w1.2
+      let both {α : Type} (p : Prog α) (sh : Except Status α → String) : St × String :=
+        let r := runP s p o.m0 o.m1
+        let r2 := runP s p f0 f1
+        ({ s with dds := s.dds.set! k (some { o with m0 := r.2.1, m1 := r.2.2 }) }, sh r.1 ++ " || " ++ sh r2.1)
+      match rest with
+      | ["inode", ref] => match nat? ref with
+          | some ref => both (o.d.getInodeP ref) showInode
+          | none => (s, "bad-op")
+      | ["ls", ref] => match nat? ref with
+          | some ref => both (o.d.listP ref) showList
+          | none => (s, "bad-op")
+      | ["path", h] => match fromHex h with
+          | some p => if p.contains 0 then (s, "bad-op") else both (o.d.resolveP p) showRef
+          | none => (s, "bad-op")
+      | ["open", j, ref] => match nat? j, nat? ref with
+          | some j, some ref =>
+            if j ≥ s.curs.size then (s, "bad-op") else
+            let r := runP s (o.d.getInodeP ref) o.m0 o.m1
+            let s1 := { s with dds := s.dds.set! k (some { o with m0 := r.2.1, m1 := r.2.2 }) }
+            match r.1 with
+            | .error e => ({ s1 with curs := s1.curs.set! j none }, "st=" ++ showSt e)
+            | .ok ino =>
+              match o.d.openDir ino with
+              | .error e => ({ s1 with curs := s1.curs.set! j none }, "st=" ++ showSt e)
+              | .ok it => ({ s1 with curs := s1.curs.set! j (some it) }, "st=0")
+          | _, _ => (s, "bad-op")
+      | ["next", j] => match nat? j with
+          | some j =>
+            match s.curs.getD j none with
+            | none => (s, "closed")
+            | some it =>
+              let r := runP s (o.d.readP it) o.m0 o.m1
+              let r2 := runP s (o.d.readP it) f0 f1
+              let cur := match r.1 with | .ok (_, it') => some it' | .error _ => none
+              ({ s with dds := s.dds.set! k (some { o with m0 := r.2.1, m1 := r.2.2 }), curs := s.curs.set! j cur },
+                showNext r.1 ++ " || " ++ showNext r2.1)
+          | none => (s, "bad-op")
+      | _ => (s, "bad-op")
+
+def showDesc (r : Except Status XDesc) : String :=
+  match r with
+  | .error e => "st=" ++ showSt e
+  | .ok d => "st=0 x=" ++ toString d.xattr ++ " c=" ++ toString d.count ++ " s=" ++ toString d.size
+
+def showKvs (r : Except Status (List (Bytes × Bytes))) : String :=
+  match r with
+  | .error e => "st=" ++ showSt e
+  | .ok l => "st=0 n=" ++ toString l.length ++ " kv=" ++
+      (if l.isEmpty then "-" else ";".intercalate (l.map fun p => toHexTok p.1 ++ ":" ++ toHexTok p.2))
+
+def mkXr (s : St) (a : Bool × Nat × Nat × Nat) : Status × XrObj :=
+  let r := xrLoad s.file a.1 a.2.1 a.2.2.1 a.2.2.2
+  let w := match r.2.2 with | some w => w | none => (0, 0)
+  (r.1, { args := a, x := r.2.1, m0 := fresh w.1 w.2, m1 := fresh w.1 w.2 })
+
+def stepXr (s : St) (k : Nat) (rest : List String) : St × String :=
+  match rest with
+  | ["new", nx, a, b, c] => match nat? nx, nat? a, nat? b, nat? c with
+      | some nx, some a, some b, some c =>
+        let r := mkXr s (nx ≠ 0, a, b, c)
+        ({ s with xrs := s.xrs.set! k (some r.2) }, "st=" ++ showSt r.1)
+      | _, _, _, _ => (s, "bad-op")
+  | _ =>
+    match s.xrs.getD k none with
+    | none => (s, "bad-op")
+    | some o =>
+      let fo := (mkXr s o.args).2
+      let upd (r : MR × MR) (lk : Option Nat) : St := { s with xrs := s.xrs.set! k (some { o with m0 := r.1, m1 := r.2, lastKey := lk }) }
+      match rest with
+      | ["desc", idx] => match nat? idx with
+          | some idx =>
+            let r := runP s (o.x.getDescP idx) o.m0 o.m1
+            let r2 := runP s (fo.x.getDescP idx) fo.m0 fo.m1
+            (upd r.2 o.lastKey, showDesc r.1 ++ " || " ++ showDesc r2.1)
+          | none => (s, "bad-op")
+      | ["all", idx] => match nat? idx with
+          | some idx =>
+            let r := runP s (o.x.readAllP idx) o.m0 o.m1
+            let r2 := runP s (fo.x.readAllP idx) fo.m0 fo.m1
+            (upd r.2 none, showKvs r.1 ++ " || " ++ showKvs r2.1)
+          | none => (s, "bad-op")
+      | ["seek", xa] => match nat? xa with
+          | some xa =>
+            let r := runP s (o.x.seekKvP ⟨xa, 0, 0⟩ (.ret ())) o.m0 o.m1
+            (upd r.2 none, "st=" ++ (match r.1 with | .ok _ => "0" | .error e => showSt e))
+          | none => (s, "bad-op")
+      | ["key"] =>
+        if !o.x.loaded then (s, "noreader") else
+        let r := runP s o.x.readKeyApiP o.m0 o.m1
+        match r.1 with
+        | .error e => (upd r.2 none, "st=" ++ showSt e)
+        | .ok (t, sz, kb) => (upd r.2 (some t), "st=0 t=" ++ toString t ++ " s=" ++ toString sz ++ " k=" ++ toHexTok kb)
+      | ["valt", t] =>
+        if !o.x.loaded then (s, "noreader") else
+        match nat? t with
+        | none => (s, "bad-op")
+        | some t =>
+          let r := runP s (o.x.readValueApiP t) o.m0 o.m1
+          match r.1 with
+          | .error e => (upd r.2 none, "st=" ++ showSt e)
+          | .ok v => (upd r.2 none, "st=0 v=" ++ toHexTok v)
+      | ["val"] =>
+        match o.lastKey with
+        | none => (s, "nokey")
+        | some t =>
+          let r := runP s (o.x.readValueApiP t) o.m0 o.m1
+          match r.1 with
+          | .error e => (upd r.2 none, "st=" ++ showSt e)
+          | .ok v => (upd r.2 none, "st=0 v=" ++ toHexTok v)
+      | _ => (s, "bad-op")
+
+def stepIdt (s : St) (k : Nat) (rest : List String) : St × String :=
+  let load (a : Nat × Nat × Nat × Nat × Nat × Nat) := idTableRead s.fix s.file toyUnc a.1 a.2.1 a.2.2.1 a.2.2.2.1 a.2.2.2.2.1 a.2.2.2.2.2
+  match rest with
+  | ["new", a, b, c, d, e, g] => match nat? a, nat? b, nat? c, nat? d, nat? e, nat? g with
+      | some a, some b, some c, some d, some e, some g =>
+        let t := load (a, b, c, d, e, g)
+        ({ s with idts := s.idts.set! k (some ((a, b, c, d, e, g), t)) }, "st=" ++ showSt (match t with | .ok _ => 0 | .error e => e))
+      | _, _, _, _, _, _ => (s, "bad-op")
+  | ["get", idx] =>
+    match s.idts.getD k none, nat? idx with
+    | some (a, t), some idx =>
+      let sh (t : Except Status (List Nat)) : String :=
+        match t with
+        | .error _ => "noids"
+        | .ok ids => match idLookup ids idx with | .error e => "st=" ++ showSt e | .ok v => "st=0 id=" ++ toString v
+      (s, sh t ++ " || " ++ sh (load a))
+    | _, _ => (s, "bad-op")
   | _ => (s, "bad-op")
 
 def step (s : St) (line : String) : St × String :=
   match words line with
   | ["file", h] => match fromHex h with
-      | some bs => ({ s with bytes := bs.toArray, bad := [], mrs := Array.replicate 16 none, drs := Array.replicate 8 none }, "ok " ++ toString bs.length)
+      | some bs => ({ s with bytes := bs.toArray, bad := [], mrs := Array.replicate 16 none, drs := Array.replicate 8 none,
+                              sts := Array.replicate 16 none, dds := Array.replicate 8 none, curs := Array.replicate 16 none,
+                              xrs := Array.replicate 8 none, idts := Array.replicate 8 none }, "ok " ++ toString bs.length)
       | none => (s, "bad-op")
   | ["bad", a, b] => match nat? a, nat? b with
       | some a, some b => ({ s with bad := (a, b) :: s.bad }, "ok")
@@ -96,6 +425,22 @@ def step (s : St) (line : String) : St × String :=
   | "dr" :: ks :: rest =>
     match nat? ks with
     | some k => if k ≥ s.drs.size then (s, "bad-op") else stepDr s k rest
+    | none => (s, "bad-op")
+  | "st" :: js :: rest =>
+    match nat? js with
+    | some j => if j ≥ s.sts.size then (s, "bad-op") else stepStream s j rest
+    | none => (s, "bad-op")
+  | "dd" :: ks :: rest =>
+    match nat? ks with
+    | some k => if k ≥ s.dds.size then (s, "bad-op") else stepDd s k rest
+    | none => (s, "bad-op")
+  | "xr" :: ks :: rest =>
+    match nat? ks with
+    | some k => if k ≥ s.xrs.size then (s, "bad-op") else stepXr s k rest
+    | none => (s, "bad-op")
+  | "idt" :: ks :: rest =>
+    match nat? ks with
+    | some k => if k ≥ s.idts.size then (s, "bad-op") else stepIdt s k rest
     | none => (s, "bad-op")
   | "mr" :: ks :: rest =>
     match nat? ks with
@@ -133,7 +478,8 @@ def step (s : St) (line : String) : St × String :=
   | _ => (s, "bad-op")
 
 def run (args : List String) : IO Unit := do
-  let fix := !(args.contains "old")
-  stateLoop (← IO.getStdin) (← IO.getStdout) step { fix := fix }
+  let old := args.contains "old"
+  let cur := args.contains "cur"
+  stateLoop (← IO.getStdin) (← IO.getStdout) step { fix := !old, kw := !old, sfix := !old && !cur }
 
 end Driver.C10
